@@ -99,6 +99,16 @@ void evutil_free_globals_(void) {}
 #define VP_SIG_ON_KERNEL_IO
 #include "sigmodel.h"
 
+#ifdef VP_SIGFD
+/* epoll with the signalfd signal mechanism: what event_base_new_with_config() does for EVENT_BASE_FLAG_USE_SIGNALFD
+ * (the flag must be in base->flags before the back end's init runs, also when event_reinit() calls init again) */
+static void *c11_sigfd_init(struct event_base *b) { b->flags |= EVENT_BASE_FLAG_USE_SIGNALFD; return epoll_init(b); }
+static const struct eventop c11_sigfd_ops = { "epoll", c11_sigfd_init, epoll_nochangelist_add, epoll_nochangelist_del, epoll_dispatch, epoll_dealloc,
+	1, EV_FEATURE_ET | EV_FEATURE_O1 | EV_FEATURE_EARLY_CLOSE, 0 };
+#define C11_OPS (&c11_sigfd_ops)
+#else
+#define C11_OPS (&epollops)
+#endif
 #define FD_A 0
 #define FD_B 1
 #define SIG VP_SIGA
@@ -111,6 +121,7 @@ static short res_io[2];
 static int waits_on_new, waits_on_old;
 static int old_epfd = -1;
 static struct sigaction orig;
+static int ebadf_after_reinit;
 
 #ifndef VP_MASK0
 #define VP_MASK0 (EV_READ | EV_CLOSED)
@@ -181,6 +192,14 @@ static void check_after_reinit(int old_pair0, int old_pair1, int old_notify0)
 	}
 #endif
 	/* signals */
+#ifdef VP_SIGFD
+	if ((VP_ADDED) & 4) {
+		struct vp_sigfd *f = vp_sigfd_for_sig(0);
+		VP_ASSERT(f != NULL && !vp_kf[f->fd].shared, "C11: the child listens on a signalfd of its own, not on the descriptor shared with the parent");
+		VP_ASSERT(vp_sig_blocked[0], "C11: the signal stays blocked for the signalfd");
+		VP_ASSERT(vp_kep[k].reg[f->fd].present, "C11: the child's signalfd is registered with the new epoll instance");
+	}
+#else
 	if ((VP_ADDED) & 4) {
 		VP_ASSERT(base->sig.ev_signal_pair[0] >= 0 && base->sig.ev_signal_pair[1] >= 0, "C11: a fresh signal pipe exists");
 		VP_ASSERT(!vp_kf[base->sig.ev_signal_pair[0]].shared && !vp_kf[base->sig.ev_signal_pair[1]].shared && vp_kf[base->sig.ev_signal_pair[0]].open && vp_kf[base->sig.ev_signal_pair[1]].open,
@@ -191,6 +210,7 @@ static void check_after_reinit(int old_pair0, int old_pair1, int old_notify0)
 		VP_ASSERT(vp_kep[k].reg[base->sig.ev_signal_pair[0]].present, "C11: the new signal pipe is registered with the new epoll instance");
 #endif
 	}
+#endif
 	if (old_pair0 >= 0) VP_ASSERT(!(vp_kf[old_pair0].open && vp_kf[old_pair0].shared) && !(vp_kf[old_pair1].open && vp_kf[old_pair1].shared), "C11: the child closed its copies of the parent's signal pipe");
 	if (old_notify0 >= 0) {
 		VP_ASSERT(!(vp_kf[old_notify0].open && vp_kf[old_notify0].shared), "C11: the child closed its copy of the parent's wake-up descriptor");
@@ -216,9 +236,9 @@ void harness_reinit(void)
 
 	vp_k_open_at(FD_A); vp_k_open_at(FD_B);
 #ifdef VP_WITH_LOCK
-	base = vp_base_new_ops(1, 1, &epollops);
+	base = vp_base_new_ops(1, 1, C11_OPS);
 #else
-	base = vp_base_new_ops(1, 0, &epollops);
+	base = vp_base_new_ops(1, 0, C11_OPS);
 #endif
 	VP_ASSERT(base->evbase != NULL, "C11: epoll back end initialises");
 	min_heap_reserve_(&base->timeheap, 4);
@@ -268,11 +288,17 @@ void harness_reinit(void)
 	return;
 #endif
 	/* ---- the events keep working in the child ---- */
+	ebadf_after_reinit = vp_k_close_ebadf;
 	vp_pipe_rfd = base->sig.ev_signal_pair[0]; vp_pipe_wfd = base->sig.ev_signal_pair[1];
 	if ((VP_ADDED) & 4) {
 		vp_sig_deliver(SIG);
+#ifdef VP_SIGFD
+		VP_ASSERT(vp_sigfd_for_sig(0) != NULL && vp_sigfd_for_sig(0)->pending[0] && vp_sig_kernel_pending[0] == 0, "C11: a signal raised in the child becomes pending on the child's signalfd");
+		vp_kf[vp_sigfd_for_sig(0)->fd].ready = POLLIN;
+#else
 		VP_ASSERT(vp_sig_bad_io == 0 && vp_sig_lib_accepted[0] == 1, "C11: a signal raised in the child is written to the child's own signal pipe");
 		vp_kf[vp_pipe_rfd].ready = POLLIN;
+#endif
 	}
 	vp_kf[FD_A].ready = POLLIN | POLLOUT | POLLRDHUP;
 	r = event_base_loop(base, EVLOOP_ONCE | EVLOOP_NONBLOCK);
@@ -286,5 +312,6 @@ void harness_reinit(void)
 		VP_ASSERT(r == 0 && vp_sa[0].sa_handler == orig.sa_handler && vp_sa[0].sa_flags == orig.sa_flags, "C11: deleting the signal event in the child restores the disposition from before the first add");
 	}
 	VP_ASSERT(vp_kep[0].ctl_calls == vp_k_parent_ctl[0], "C11: still no epoll_ctl on the parent's instance");
+	VP_ASSERT(vp_k_close_ebadf == ebadf_after_reinit, "C11: no close of an already closed descriptor in the child's later operations");
 	VP_WITNESS("child ran a loop iteration after event_reinit");
 }
